@@ -81,13 +81,13 @@ theorem ackList_twin (iss : Seq) (N : Nat) (hN : N < 2147483648) (gs : List Segm
     ∀ (t t' : Tcb), t.state = .Established → t.rcv.wnd = 65535#16 → t.incoming.segments = [] →
       t.outgoing.text ≠ [] → t.snd.iss = iss → off iss t.snd.nxt = N → off iss t.snd.una ≤ N →
       (∀ g ∈ gs, PureAck g ∧ g.hdr.seq = t.rcv.nxt ∧ 1 ≤ off iss g.hdr.ack ∧ off iss g.hdr.ack ≤ N) →
-      arriveList t gs = .ok t' → arriveList (fw t) gs = .ok (fw t') := by
+      arriveList t gs = .ok t' → arriveList (fw t) gs = .ok (fw t') ∧ t'.outgoing.oneshot = t.outgoing.oneshot := by
   induction gs with
   | nil =>
     intro t t' _ _ _ _ _ _ _ _ h
     simp only [arriveList] at h ⊢
     cases h
-    rfl
+    exact ⟨rfl, rfl⟩
   | cons g rest ih =>
     intro t t' hst hw hheap htext hiss hsent hu hall h
     obtain ⟨hp, hseq, ha1, ha2⟩ := hall g List.mem_cons_self
@@ -104,11 +104,12 @@ theorem ackList_twin (iss : Seq) (N : Nat) (hN : N < 2147483648) (gs : List Segm
       by_cases hle : modLeq g.hdr.ack t.snd.una = true
       · rw [fx.una, if_pos hle]; exact hu
       · rw [fx.una, if_neg hle]; exact ha2
-    exact ih t1 t' (by rw [fx.st]; exact hst) (by rw [fx.rcv]; exact hw) (by rw [fx.inc]; exact hheap)
+    have := ih t1 t' (by rw [fx.st]; exact hst) (by rw [fx.rcv]; exact hw) (by rw [fx.inc]; exact hheap)
       (by rw [fx.otext]; exact htext) (by rw [k.iss]; exact hiss) (by rw [fx.nxt]; exact hsent) hu1
       (fun g' hg' => by
         obtain ⟨a, b, c, d⟩ := hall g' (List.mem_cons_of_mem _ hg')
         exact ⟨a, by rw [fx.rcv]; exact b, c, d⟩) h
+    exact ⟨this.1, this.2.trans fx.one⟩
 
 end Tcb
 end Elvis.Tcp
